@@ -180,6 +180,9 @@ class SymEval:
         if k in ("Borrow", "Deref", "RawBorrow", "Scope", "Use"):
             return self.ev(e["e"], env)
         if k == "Cast":
+            src_ty = (strip(e["e"]).get("ty") or "") if isinstance(e.get("e"), dict) else ""
+            if src_ty in ("f64", "f32") and (e.get("ty") or "") not in ("f64", "f32"):
+                return ("unk", "a float-to-integer cast truncates and saturates (not the identity)")
             return self.ev(e["e"], env)
         if k == "Unary" and e.get("op") == "Neg":
             v = self.ev(e["e"], env)
